@@ -687,6 +687,22 @@ def h1_monitor(case, hooks_per_op):
     return None
 
 
+def unlink_shm(res):
+    """libmcount maps two buffers per thread but announces only the one in use: lib/h1.py unlinks the announced
+    ones, the spare ones (`-001`) of this run's session are removed here"""
+    import glob
+    for typ, payload in res["msgs"]:
+        if typ == "REC_START":
+            m = re.match(r"^/(uftrace-[0-9a-f]+)-\d+-\d+", payload.decode(errors="replace"))
+            if m:
+                for f in glob.glob("/dev/shm/%s-*" % m.group(1)):
+                    try:
+                        os.unlink(f)
+                    except OSError:
+                        pass
+    return res
+
+
 def run_h1(ctx, known):
     from lib import h1, mcgen, mcheck
     exe, log = h1.build(ctx, "normal", driver="h1_c18_driver.c", out="h1c18")
@@ -706,7 +722,7 @@ def run_h1(ctx, known):
             env["UFTRACE_LOCATION"] = env["UFTRACE_LOCATION"].replace("h1_driver.c", "h1_c18_driver.c")
         if c["funcs"]:
             env["UFTRACE_ARGS"] = "\n".join(mcgen.patt(c["opts"], f) for f in c["funcs"])
-        return h1.run(ctx, exe, env, c["ops"], c["idx"])
+        return unlink_shm(h1.run(ctx, exe, env, c["ops"], c["idx"]))
 
     with ThreadPoolExecutor(16) as ex:
         rs = list(ex.map(one, cases))
@@ -981,7 +997,7 @@ def replay(ctx, path):
         if fl:
             patt = env.get("UFTRACE_PATTERN", "regex")
             env["UFTRACE_ARGS"] = "\n".join(("^%s$" if patt == "regex" else "%s") % ("g_big" if f == 8 else "f%d" % f) for f in fl)
-        res = h1.run(ctx, exe, env, r["ops"], 0)
+        res = unlink_shm(h1.run(ctx, exe, env, r["ops"], 0))
         for op, l, a, b in zip(r["ops"], res["lines"][1:], r.get("model_fixed", []), r.get("model_prefix", [])):
             print("%-12s | %-40s | model %-28s | pre-fix model %s" % (op, l, a, b))
         return 0
